@@ -53,6 +53,19 @@ Definition scale2 (l : list Q) : Q :=
 
 Definition sd_ok (sc2 var sd : Q) : bool := Qle_bool 0 sd && near (Qabs' sc2 + Qabs' var) var (sd * sd).
 
+(** twice the tolerance: two observations that are each [near] the same exact value *)
+Definition near2 (scale a b : Q) : bool :=
+  Qle_bool (Qabs' (a - b)) ((2 # 1) * (tol_abs + tol_rel * Qabs' scale)).
+
+(** facts every summary of a dataset satisfies exactly (no tolerance): variance is not negative,
+    std_dev is the root of the reported variance, the mean lies within the range.  The oracle
+    [batch_ok_gen] demands them; [corr_b] demands them too, so that whatever [corr_b] accepts is
+    accepted by [prop_b] (Proofs/CorrC17.v).  As [prop_b] fails without them anyway, the verdict
+    of a case is the same with or without them in [corr_b]. *)
+Definition obs_inv (o : obs) : bool :=
+  Qle_bool 0 (o_var o) && sd_ok 0 (o_var o) (o_sd o) &&
+  Qle_bool (o_low o) (o_mean o) && Qle_bool (o_mean o) (o_high o).
+
 (** [exact = true]: the dataset values are short decimals (C17: at most 8 fractional digits), so
     Decimal sums and differences are exact and are compared exactly.  [exact = false] (used by
     C16, whose dataset values are themselves 28-digit quotients): sum and range width may round
@@ -74,7 +87,8 @@ Fixpoint corr_run (sc1 sc2 : Q) (s : ds) (vals : list Q) (os : list obs) : bool 
   match vals, os with
   | [], [] => true
   | v :: vals', o :: os' =>
-      let s' := ds_update s (qc v) in obs_matches sc1 sc2 s' o && corr_run sc1 sc2 s' vals' os'
+      let s' := ds_update s (qc v) in
+      obs_matches sc1 sc2 s' o && obs_inv o && corr_run sc1 sc2 s' vals' os'
   | _, _ => false
   end.
 
@@ -82,10 +96,17 @@ Definition ds_of_obs (o : obs) : ds :=
   mkDs (qc (o_count o)) (qc (o_sum o)) (qc (o_mean o))
        (mkDisp (mkRange (o_act o) (qc (o_high o)) (qc (o_low o))) (qc (o_m o)) (qc (o_var o))).
 
-Definition count_occ_q (l : list Q) (x : Q) : nat := length (filter (Qeq_bool x) l).
-Definition is_perm_b (l1 l2 : list Q) : bool :=
-  Nat.eqb (length l1) (length l2) &&
-  forallb (fun x => Nat.eqb (count_occ_q l1 x) (count_occ_q l2 x)) l1.
+(** [l2] is a rearrangement of [l1]: strike the elements of [l1] out of [l2] one by one *)
+Fixpoint remove_first (x : Q) (l : list Q) : option (list Q) :=
+  match l with
+  | [] => None
+  | y :: t => if Qeq_bool x y then Some t else option_map (cons y) (remove_first x t)
+  end.
+Fixpoint is_perm_b (l1 l2 : list Q) : bool :=
+  match l1 with
+  | [] => match l2 with [] => true | _ => false end
+  | x :: t => match remove_first x l2 with Some l2' => is_perm_b t l2' | None => false end
+  end.
 
 Definition range_matches (r : range) (act : bool) (hi lo : Q) : bool :=
   Bool.eqb (r_act r) act && Qeq_bool (uq (r_high r)) hi && Qeq_bool (uq (r_low r)) lo.
@@ -96,7 +117,8 @@ Definition corr_b (c : case) : bool :=
       obs_matches 0 0 ds_default o0 && corr_run (scale1 vals) (scale2 vals) ds_default vals os
   | CPerms base finals =>
       forallb (fun po => is_perm_b base (fst po) &&
-                         obs_matches (scale1 base) (scale2 base) (ds_run (map qc (fst po))) (snd po))
+                         obs_matches (scale1 base) (scale2 base) (ds_run (map qc (fst po))) (snd po) &&
+                         obs_inv (snd po))
               finals
   | CStep st x (Some o) =>
       let l := [o_sum st; o_mean st; o_high st; o_low st; x] in
@@ -135,8 +157,10 @@ Definition batch_ok_gen (exact : bool) (sc1 sc2 : Q) (l : list Qc) (o : obs) : b
 
 Definition batch_ok := batch_ok_gen true.
 
-Definition empty_ok (o : obs) : bool :=
-  Qeq_bool (o_count o) 0 && Qeq_bool (o_sum o) 0 && negb (o_act o).
+(** the summary of the empty dataset ([exact], [sc]: as for [obs_matches_gen]) *)
+Definition empty_ok_gen (exact : bool) (sc : Q) (o : obs) : bool :=
+  Qeq_bool 0 (o_count o) && eq_or_near exact sc 0 (o_sum o) && negb (o_act o).
+Definition empty_ok := empty_ok_gen true 0.
 
 Fixpoint prop_run (sc1 sc2 : Q) (seen rest : list Qc) (os : list obs) : bool :=
   match rest, os with
@@ -146,12 +170,14 @@ Fixpoint prop_run (sc1 sc2 : Q) (seen rest : list Qc) (os : list obs) : bool :=
   | _, _ => false
   end.
 
-(** exact fields identical, rounded fields within tolerance *)
-Definition same_summary (sc1 sc2 : Q) (a b : obs) : bool :=
+(** exact fields identical, rounded fields within twice the tolerance (each of the two is within
+    the tolerance of the exact value); std_dev compared through its square, [scv] = scale of the
+    variance *)
+Definition same_summary (sc1 sc2 scv : Q) (a b : obs) : bool :=
   Qeq_bool (o_count a) (o_count b) && Qeq_bool (o_sum a) (o_sum b) &&
   Bool.eqb (o_act a) (o_act b) && Qeq_bool (o_high a) (o_high b) && Qeq_bool (o_low a) (o_low b) &&
-  near sc1 (o_mean a) (o_mean b) && near sc2 (o_m a) (o_m b) && near sc2 (o_var a) (o_var b) &&
-  near sc2 (o_sd a * o_sd a) (o_sd b * o_sd b).   (* std_dev compared through its square *)
+  near2 sc1 (o_mean a) (o_mean b) && near2 sc2 (o_m a) (o_m b) && near2 sc2 (o_var a) (o_var b) &&
+  near2 scv (o_sd a * o_sd a) (o_sd b * o_sd b).
 
 Definition prop_b (c : case) : bool :=
   match c with
@@ -163,7 +189,9 @@ Definition prop_b (c : case) : bool :=
       | _, (_, f0) :: _ =>
           (* every arrival order gives the statistics of the multiset, and the same summary *)
           forallb (fun po => batch_ok (scale1 base) (scale2 base) (map qc base) (snd po) &&
-                             same_summary (scale1 base) (scale2 base) f0 (snd po)) finals
+                             same_summary (scale1 base) (scale2 base)
+                               (Qabs' (scale2 base) + Qabs' (uq (b_var (map qc base)))) f0 (snd po))
+                  finals
       end
   | CRange act hi lo x act' hi' lo' =>
       if act then
@@ -174,8 +202,8 @@ Definition prop_b (c : case) : bool :=
   | CRangeInit x act' hi' lo' => act' && Qeq_bool hi' x && Qeq_bool lo' x
   | CMean pm x c r =>
       (* the mean of c values whose first c-1 have mean pm and whose last is x *)
-      if Qle_bool 1 c then near (maxabs [pm; x] * c) (pm * (c - 1) + x) (r * c) else true
-  | CPopVar m c r => if Qle_bool 1 c then near m m (r * c) else true
+      if Qle_bool 1 c then near (maxabs [pm; x]) ((pm * (c - 1) + x) / c) r else true
+  | CPopVar m c r => if Qle_bool 1 c then near m (m / c) r else true
   | CStep _ _ _ | CRecM _ _ _ _ _ => true     (* no independent statement: model agreement only *)
   end.
 
